@@ -665,6 +665,8 @@ func parseContractText(data, path, pkg string) (*ContractFile, error) {
 			c := &Contract{Pkg: pkg, LoopInv: map[int][]Clause{}, LoopDec: map[int]Clause{}, LoopMod: map[int][]string{}}
 			if kw == "extern" {
 				c.Extern = true
+			}
+			{
 				for {
 					if strings.HasPrefix(rest, "pure ") {
 						c.Pure = true
